@@ -33,6 +33,33 @@ def base_cfg(binary, rng=None, max_joins=None, password=None, default_modes=(), 
     return scfg, mcfg
 
 
+def c16_variant(rng):
+    """random configuration of 0-3 predefined channels with random subsets of attributes"""
+    chans = []
+    names = rng.sample(["#p1", "#p2", "#x", "&w", "#y"], rng.choice([0, 1, 1, 2, 3]))
+    for n in names:
+        m = {}
+        for k in ("invite_only", "moderated", "secret", "protected_topic", "no_external_messages"):
+            if rng.random() < 0.3:
+                m[k] = True
+        if rng.random() < 0.3:
+            m["key"] = rng.choice(gen.KEYS)
+        if rng.random() < 0.3:
+            m["client_limit"] = rng.choice([1, 2, 3, 10])
+        for k in ("ban", "exception", "invite_exception"):
+            if rng.random() < 0.3:
+                m[k] = rng.sample(["al!*@*", "*!~bob@*", "*!*@127.0.0.1", "cy!*@*", "*!*@10.*"], rng.choice([1, 2]))
+        for k in ("founders", "protecteds", "operators", "half_operators", "voices"):
+            if rng.random() < 0.35:
+                m[k] = rng.sample(["al", "bo", "cy", "di", "root"], rng.choice([1, 2]))
+        c = {"name": n, "modes": m}
+        if rng.random() < 0.5:
+            c["topic"] = "topic of " + n
+        chans.append(c)
+    return dict(preconf=rng.random() < 0.5, extra_channels=chans,
+                max_joins=rng.choice([None, None, 2, 3]))
+
+
 def run_episode(args):
     """one episode on a fresh server; returns a plain dict (picklable)"""
     (binary, hooks, seed, steps, profile) = args
@@ -41,7 +68,11 @@ def run_episode(args):
     res = dict(seed=seed, steps=0, violations=[], inconclusive=None, cover={}, shapes={},
                deliveries=0, snapshots=0, history=None, panics=[], profile=profile.get("name"))
     variants = profile.get("cfg_variants") or [{}]
-    var = dict(rng.choice(variants))
+    if variants == "c16":
+        var = c16_variant(rng)
+    else:
+        var = dict(rng.choice(variants))
+    res["variant_id"] = repr(sorted((k, repr(v)) for k, v in var.items()))
     scfg, mcfg = base_cfg(binary, **var)
     srv = sut.Server(binary, scfg, hooks=hooks)
     w = None
@@ -53,7 +84,8 @@ def run_episode(args):
                     max_clients=profile.get("max_clients", 5),
                     hostile_masks=profile.get("hostile_masks", True),
                     endings=profile.get("endings"), server_password=var.get("password"),
-                    nicks=profile.get("nicks"), multi_prefix_rate=profile.get("mp_rate", 0.3))
+                    nicks=profile.get("nicks"), multi_prefix_rate=profile.get("mp_rate", 0.3),
+                    mode_weights=profile.get("mode_weights"))
         stop_on = profile.get("stop_on_violation", True)
         known = set(profile.get("known_signatures", ()))
         for i in range(steps):
@@ -72,6 +104,16 @@ def run_episode(args):
                 break
             if v and stop_on and any(x.signature not in known for x in v):
                 break
+        if profile.get("final_die") and not w.dead and not w.violations and srv.alive():
+            live = g.live()
+            if live:
+                cid = rng.choice(live)
+                if not w.model.user_of(cid).is_oper:
+                    w.act(cid, {"verb": "OPER", "name": "root", "password": gen.OPER_PW["root"]})
+                if not w.violations and w.model.user_of(cid).is_oper:
+                    w.act_die(cid, rng.choice([{"verb": "DIE"},
+                                               {"verb": "SQUIT", "server": mcfg.name, "comment": "x"}]))
+                    res["steps"] += 1
     except W.Inconclusive as ex:
         res["inconclusive"] = str(ex)
     except sut.BuildError:
@@ -86,6 +128,7 @@ def run_episode(args):
             res["shapes"] = dict(w.shapes)
             res["deliveries"] = w.deliveries_checked
             res["snapshots"] = w.snapshots
+            res["tail"] = w.history[-8:]
             if w.violations or res["inconclusive"]:
                 res["history"] = w.history[-400:]
                 res["transcripts"] = {str(cid): c.transcript[-60:] for cid, c in w.clients.items()}
